@@ -225,10 +225,16 @@ impl<Resp> Drop for ResponseGuard<'_, Resp> {
         // closing the receiver before sending the cancel message, it is guaranteed that if the
         // dispatch task misses an early-arriving cancellation message, then it will see the
         // receiver as closed.
+        #[cfg(feature = "verif")]
+        crate::verif::yield_point(crate::verif::Point::ClientGuardDropEntry, self.request_id);
         self.response.close();
+        #[cfg(feature = "verif")]
+        crate::verif::yield_point(crate::verif::Point::ClientGuardDropMid, self.request_id);
         if self.cancel {
             self.cancellation.cancel(self.request_id);
         }
+        #[cfg(feature = "verif")]
+        crate::verif::yield_point(crate::verif::Point::ClientGuardDropExit, self.request_id);
     }
 }
 
@@ -662,6 +668,14 @@ where
                 Err(e) => *self.terminal_error_mut() = Some(e.upcast_any()),
             }
         }
+    }
+}
+
+#[cfg(feature = "verif")]
+impl<Req, Resp, C> RequestDispatch<Req, Resp, C> {
+    /// Verification hook: lengths of the in-flight request table and of its timer queue.
+    pub fn verif_in_flight(&self) -> crate::verif::Lens {
+        self.in_flight_requests.verif_lens()
     }
 }
 
